@@ -1063,8 +1063,15 @@ pub struct PanicRecord {
 static PANICS: Mutex<Vec<PanicRecord>> = Mutex::new(Vec::new());
 
 /// Install a process-wide hook that records panics instead of printing them.
+/// Payload of a panic the harness raises on purpose (an application panic that the application catches, so that
+/// values go out of scope while their thread is unwinding): the hook does not record it.
+pub struct DeliberateUnwind;
+
 pub fn install_panic_hook(print: bool) {
     std::panic::set_hook(Box::new(move |info| {
+        if info.payload().downcast_ref::<DeliberateUnwind>().is_some() {
+            return;
+        }
         let thread = std::thread::current().name().unwrap_or("?").to_string();
         let message = if let Some(s) = info.payload().downcast_ref::<&str>() {
             s.to_string()
